@@ -30,7 +30,8 @@ fn main() {
                 let t2 = if t.starts_with("proof") { t[t.find('!').map_or(0, |i| i + 1)..].trim_start_matches(|c| c == ' ' || c == '{') } else { t };
                 if let Some(rest) = t2.strip_prefix("fn ") {
                     if let Some(i) = rest.find("()") {
-                        names.push((stem.clone(), rest[..i].to_string()));
+                        // `fn $name()` inside a harness-generating macro definition is not a harness
+                        if !rest.starts_with('$') { names.push((stem.clone(), rest[..i].to_string())); }
                         in_proof = false;
                     }
                 }
